@@ -105,7 +105,7 @@ def run(ctx):
 
     # ---------------------------------------------------------------- model vs implementation
     mism = None
-    sel = cases if ctx.thorough else [c for c in cases if c["I"] % 8 == ctx.seed % 8 or (c.get("Oracle") and c["I"] % 2 == 0)]
+    sel = cases if ctx.thorough else [c for c in cases if c["I"] % 12 == ctx.seed % 12 or (c.get("Oracle") and c["I"] % 2 == 0)]
     ok_eval, out_eval = ctx.coq_build(["theories/C25/Eval.vo"])
     if not ok_eval:
         ctx.tie_broken("C25/Model.v or C25/Eval.v does not compile", out_eval)
